@@ -156,18 +156,21 @@ func (dd *Document) addMethod(service *client_j5pb.Service, method *client_j5pb.
 		}
 	}
 
-	responseSchema, err := convertObjectItem(method.ResponseBody)
-	if err != nil {
-		return fmt.Errorf("response body: %w", err)
+	responseContent := OperationContent{}
+	if method.ResponseBody != nil {
+		// no response body: the method returns a raw http body
+		responseSchema, err := convertObjectItem(method.ResponseBody)
+		if err != nil {
+			return fmt.Errorf("response body: %w", err)
+		}
+		responseContent.JSON = &OperationSchema{
+			Schema: responseSchema,
+		}
 	}
 	operation.Responses = &ResponseSet{{
 		Code:        200,
 		Description: "OK",
-		Content: OperationContent{
-			JSON: &OperationSchema{
-				Schema: responseSchema,
-			},
-		},
+		Content:     responseContent,
 	}}
 
 	found := false
